@@ -49,6 +49,12 @@ CLAIMED = {
         text='Both dates are solver variables over 1900-2100 (every year, month, day, leap years included), so each obligation covers all ~10^9 date pairs of the bound at once; '
              'rule-text equality (TF, 1 Jan-30 Sep), masters bands, option effects, ISO-string equivalence and birth-date monotonicity (two symbolic births) are z3 queries per path.',
         note='Trusted: the relativedelta/date/parse contracts (the arithmetic core is compared with the real dateutil on 88k-1.5M date pairs each run), z3 LIA. XC/ROAD rule-text equality is not asserted (the property restricts it to TF).'),
+    'C19': dict(
+        category='model_checking', design_ref='DESIGN.md section 3 C19',
+        technique='one-step induction with a symbolic cache pre-state: the real cache functions executed symbolically (remembered answers and validator outcomes are solver Booleans), outcome == fresh-process outcome and invariant preservation as z3 obligations',
+        text='Histories are covered by induction instead of enumeration: from any cache state satisfying "remembered answer == validator outcome" (every size 0..20, any key hit or miss, either expect_failure) '
+             'one real call is shown to answer like a fresh process and to re-establish the invariant; 2-3 call sequences are explored on top. Counterexamples are replayed through the public API.',
+        note='jsonschema and file I/O are stubs (uninterpreted outcome per file); facts about the bundled files are concrete runs of the plain library with sockets disabled, reported as such.'),
 }
 
 NOT_APPLICABLE = {
